@@ -135,10 +135,10 @@ theorem runOps_pushed (env : Env H V) : ∀ (os : List Op) (w : World V),
 end
 
 /-! ### heap coherence: a cached pair of a time-dependent generator is either the placeholder
-`(None, -1)` or `(gen name seed t, t)` -/
+`(None, _NO_TIME)` or `(gen name seed t, t)` -/
 
-def CacheOK (env : Env H V) (n : String) (s : Int) (c : Option V × Int) : Prop :=
-  c.1 = some (env.tdVal n s c.2) ∨ (c.1 = none ∧ c.2 = -1)
+def CacheOK (env : Env H V) (n : String) (s : Int) (c : Option V × Option Int) : Prop :=
+  (∃ t, c.2 = some t ∧ c.1 = some (env.tdVal n s t)) ∨ (c.1 = none ∧ c.2 = none)
 
 def GenOK (env : Env H V) (g : Gen V) : Prop :=
   match g.kind with
@@ -182,7 +182,7 @@ theorem GenOK_produce (env : Env H V) (now : Int) (g : Gen V) (f : Bool) (h : Ge
     | stream sid => trivial
     | td n s =>
       simp only [hk] at h ⊢
-      exact ⟨Or.inl (by simp [produce_val_td env g now n s hk]), h.2⟩
+      exact ⟨Or.inl ⟨now, rfl, by simp [produce_val_td env g now n s hk]⟩, h.2⟩
   · exact h
 
 theorem HeapOK_set (env : Env H V) (hp : List (Gen V)) (i : Nat) (g : Gen V)
@@ -214,7 +214,7 @@ theorem pushGens_ok (env : Env H V) : ∀ (gs : List Nat) (hp : List (Gen V)),
     · rename_i x hx
       exact pushGens_ok env gs _ (HeapOK_set env hp g _ h (GenOK_push env x (HeapOK_get env hp g x h hx)))
 
-theorem GenOK_pop (env : Env H V) (x : Gen V) (l : Option V) (t : Int) (rest : List (Option V × Int))
+theorem GenOK_pop (env : Env H V) (x : Gen V) (l : Option V) (t : Option Int) (rest : List (Option V × Option Int))
     (h : GenOK env x) (hs : x.saved = (l, t) :: rest) :
     GenOK env { x with last := l, lastTime := t, saved := rest } := by
   unfold GenOK at *
@@ -363,10 +363,10 @@ theorem pushGens_get : ∀ (gs : List Nat) (hp : List (Gen V)) (x : Nat),
       · simp [List.getElem?_set_ne hx, List.count_cons, hx]
 
 /-- what `_state_pop` leaves in a generator: the pair on top of the stack -/
-def Gen.restore (c : Option V × Int) (s : List (Option V × Int)) (g : Gen V) : Gen V :=
+def Gen.restore (c : Option V × Option Int) (s : List (Option V × Option Int)) (g : Gen V) : Gen V :=
   { g with last := c.1, lastTime := c.2, saved := s }
 
-theorem popGens_get (c : Nat → Option V × Int) (s : Nat → List (Option V × Int)) :
+theorem popGens_get (c : Nat → Option V × Option Int) (s : Nat → List (Option V × Option Int)) :
     ∀ (gs : List Nat) (hp : List (Gen V)),
     (∀ x ∈ gs, ∀ y, hp[x]? = some y → y.saved = List.replicate (gs.count x) (c x) ++ s x) →
     (popGens gs hp).1 = .ok .unit ∧
